@@ -276,6 +276,7 @@ func TestVerifC12(t *testing.T) {
 	// ---- (4) D32, observation only (TCP timing decides): Send on a connection whose peer is gone
 	{
 		// (a) the peer closed the connection 100 ms ago
+		d32N, d32FirstOk := 0, 0
 		ln, _ := net.Listen("tcp", "127.0.0.1:0")
 		go func() {
 			for {
@@ -318,6 +319,10 @@ func TestVerifC12(t *testing.T) {
 			_ = client.Close()
 			<-chDone
 			fmt.Fprintf(w, "mtcp d32obs peer-closed %s gone=%d\n", strings.Join(res, ","), gone)
+			d32N++
+			if len(res) > 0 && res[0] == "ok" {
+				d32FirstOk++
+			}
 		}
 		// (a') the same with a consumer that is busy: it looks at the report channel every 15 ms instead of being
 		// parked on it - the report of a failed Send must wait for it, not be dropped
@@ -368,8 +373,15 @@ func TestVerifC12(t *testing.T) {
 			g := gone
 			mu.Unlock()
 			fmt.Fprintf(w, "mtcp d32obs peer-closed-busy-consumer %s gone=%d\n", strings.Join(res, ","), g)
+			d32N++
+			if len(res) > 0 && res[0] == "ok" {
+				d32FirstOk++
+			}
 		}
 		_ = ln.Close()
+		// one Send that is told "ok" although the peer closed the connection 100 ms before can be TCP timing; EVERY
+		// first Send being told "ok" means the liveness probe of Send does not do its job (the bundle is lost silently)
+		fmt.Fprintf(w, "mtcp d32sum first-ok=%d of=%d\n", d32FirstOk, d32N)
 	}
 	{
 		// (b) the server CLA was closed (listener gone, report channel closed) while the connection is still open
